@@ -416,11 +416,12 @@ class InbPart(Part):
                 bad = []
         if "C17" in self.want:
             bad = bad + p9(self.ver, case, obs)
-        if ("C11" in self.want or "C03" in self.want) and self.engine.startswith("inb"):
+        routed = self.engine.startswith("inb") or case.split(";")[0].endswith(",1")   # clients: router mode only
+        if ("C11" in self.want or "C03" in self.want) and routed:
             bad = bad + p10(self.ver, case, obs)
         if "C15" in self.want and self.engine in ("inb5", "cli5"):
             bad = bad + p12(self.ver, case, obs, client=self.engine == "cli5")
-        if "C11" in self.want and self.engine.startswith("inb"):
+        if "C11" in self.want and routed:
             bad = bad + p14(self.ver, case, obs)
         if "C18" in self.want and self.engine.startswith("inb"):
             bad = bad + p15(self.ver, case, obs)
@@ -428,9 +429,10 @@ class InbPart(Part):
             bad = bad + p17(self.ver, case, obs)
         if "C04" in self.want and self.engine.startswith("inb"):
             bad = bad + p16(self.ver, case, obs)
-        elif "C12" in self.want and self.engine == "inb5":
+        elif "C12" in self.want and self.engine in ("inb5", "cli5"):
             # receive maximum: 0x93 for a peer within its quota, or another code for a peer over it
-            bad = bad + [b.replace("P12 ", "P13 ") for b in p12(self.ver, case, obs) if "147" in b]
+            bad = bad + [b.replace("P12 ", "P13 ") for b in p12(self.ver, case, obs, client=self.engine == "cli5")
+                         if "147" in b]
         for b in bad:
             code = b.split(" ")[0]
             if code in ("P6", "P7"):
